@@ -372,6 +372,8 @@ def run_plan(plan, seed, choices=None):
     if st['connect_error']:
         raise HarnessError('connect failed: %s' % st['connect_error'])
     w.settle(3.0 + sum(d_[2] * d_[3] for d_ in plan.get('deep_stalls', [])))       # (stalled executor tasks still owe their in-flight slots)
+    w.wait_executor_idle()      # tasks blocked in borrow_connection(2 s) behind the tasks that would free a stream id drain slowly
+    w.settle(0.5)
     w.drain()
     node = w.fc.nodes[0]
     max_id = min(plan['knobs']['max_in_flight'] - 1, 2 ** 15 - 1) if plan['version'] >= 3 else min(plan['knobs']['max_in_flight'], 127)
